@@ -204,6 +204,71 @@ def _engine_defect_shapes(spec):
     return [(m, lambda ast, f=f: _map(ast, f)) for m, f in alts]
 
 
+def _neutralised(spec):
+    """the same formula without the two engine-defect shapes: every term of a ConditionalSum gets its own condition object
+    (an inline copy of the shared condition) and BelongsTo members are rounded to single precision, so that engine and
+    reference agree again and every other monitor can still be applied to the case"""
+    import copy
+
+    sp = copy.deepcopy(spec)
+
+    def fix(n):
+        if n[0] == 'condsum':
+            seen = set()
+            for t in n[1]:
+                c = t[0]
+                if isinstance(c, list) and c and c[0] == 'share':
+                    if c[1] in seen:
+                        t[0] = copy.deepcopy(sp['shared'][c[1]])
+                    seen.add(c[1])
+        if n[0] == 'belongs':
+            n[2] = sorted({float(np.float32(float(m))) for m in n[2]})
+        return n
+
+    sp['shared'] = [_map(a, fix) for a in sp['shared']]
+    sp['ast'] = _map(sp['ast'], fix)
+    sp['extra_asts'] = [_map(a, fix) for a in sp.get('extra_asts', [])]
+    return sp
+
+
+def _judge_on_defect_shapes(spec, shapes, rec):
+    """per-row engine value of every formula of the case against the reference; a mismatch that equals what the known
+    engine defect computes is reported under that defect's mechanism, any other mismatch under the ordinary one"""
+    from ..gen import build, exprs
+    from ..oracle import evalast
+
+    bv = {k: v[0] for k, v in spec['betas'].items()}
+    for which, ast in enumerate([spec['ast']] + list(spec.get('extra_asts', []))):
+        one = dict(spec, ast=ast, extra_asts=[])
+        j = evalast.judge(ast, spec['data'], bv, spec['shared'])
+        if not j['ok']:
+            continue
+        rtol, atol = _tol(exprs.ops_in(ast, spec['shared']))
+        try:
+            e, _ = build.build(one)
+            va = np.asarray(e.get_value_c(database=build.database(one), prepare_ids=True), dtype=float)
+        except BaseException as ex_:  # noqa
+            rec.violation(f'C01/get_value_c-raises-{type(ex_).__name__}', f'{ex_}', {'spec': one})
+            continue
+        rec.ev()
+        rec.c('defect_shape_formulas_judged')
+        ref = j['value']
+        if va.shape == ref.shape and close(va, ref, rtol, atol):
+            continue
+        for mech, tr in shapes:
+            try:
+                alt, _ = evalast.evaluate(tr(ast), spec['data'], bv, [tr(a) for a in spec['shared']])
+            except (evalast.OutOfDomain, KeyError):
+                continue
+            if va.shape == alt.shape and close(va, alt, rtol, atol):
+                rec.violation('C01/' + mech, f'get_value_c={va.tolist()} reference={ref.tolist()}; the engine value equals the formula with '
+                              f'{"one term kept per condition object" if "conditional" in mech else "the set members rounded to single precision"}: '
+                              f'{alt.tolist()}', {'spec': one, 'ref': ref, 'engine': va})
+                break
+        else:
+            rec.violation('C01/engine-value-differs-from-reference', f'get_value_c={va.tolist()} reference={ref.tolist()}', {'spec': one, 'ref': ref, 'engine': va})
+
+
 def run_case(case):
     from ..gen import exprs, build
     from ..oracle import evalast, signature
@@ -218,6 +283,12 @@ def run_case(case):
     else:
         spec = exprs.make_case(case['seed'], case['i'], extra=random.Random(case['i']).choice([0, 0, 1, 2, 4]),
                                wide=(case['i'] % 2 == 1))
+    shapes = _engine_defect_shapes(spec)
+    if shapes:
+        # judged as written on the per-row path, then every other monitor runs on the same formula without the two shapes
+        rec.c('cases_with_shared_condition_or_single_precision_member')
+        _judge_on_defect_shapes(spec, shapes, rec)
+        spec = _neutralised(spec)
     bv = {k: v[0] for k, v in spec['betas'].items()}
     j = evalast.judge(spec['ast'], spec['data'], bv, spec['shared'])
     if not j['ok']:
@@ -265,27 +336,6 @@ def run_case(case):
     rec.sample({'ast': spec['ast'], 'shared': spec['shared'], 'betas': spec['betas'],
                 'data': spec['data'], 'reference': ref, 'engine': va})
     va = np.asarray(va, dtype=float)
-    shapes = _engine_defect_shapes(spec)
-    if shapes:
-        rec.c('cases_with_shared_condition_or_single_precision_member')
-
-    def classify(ast, engine_value, reference, label):
-        """a mismatch on one of the two known engine-defect shapes is reported under that defect's mechanism"""
-        ev_ = np.asarray(engine_value, dtype=float)
-        for mech, tr in shapes:
-            try:
-                alt, _ = evalast.evaluate(tr(ast), spec['data'], bv, [tr(a) for a in spec['shared']])
-            except (evalast.OutOfDomain, KeyError):
-                continue
-            if ev_.shape == alt.shape and close(ev_, alt, rtol, atol):
-                viol(mech, f'{label}={ev_.tolist()} reference={np.asarray(reference).tolist()}; the engine value equals the formula with '
-                     f'{"one term kept per condition object" if "conditional" in mech else "the set members rounded to single precision"}: {alt.tolist()}',
-                     engine=ev_)
-                return True
-        return False
-
-    if shapes and (va.shape != ref.shape or not close(va, ref, rtol, atol)) and classify(spec['ast'], va, ref, 'get_value_c'):
-        return rec.out()
     if va.shape != ref.shape or not close(va, ref, rtol, atol):
         viol('engine-value-differs-from-reference', f'get_value_c={va.tolist()} reference={ref.tolist()} maxrel={maxrel(va, ref) if va.shape == ref.shape else "shape"}',
              engine=va)
@@ -405,8 +455,6 @@ def run_case(case):
                     o2 = exprs.ops_in(forms[nm], spec['shared'])
                     rt, at = _tol(o2)
                     if not close(sim[nm].to_numpy(), refs[nm], rt, at):
-                        if shapes and classify(forms[nm], sim[nm].to_numpy(), refs[nm], f'simulate[{nm}]'):
-                            continue
                         viol('side-by-side-value-differs', f'formula {nm}: simulate={sim[nm].tolist()} ref={refs[nm].tolist()}',
                              formulas=forms)
                 # history: one of the formulas evaluated directly (ids re-prepared and restored), then simulate again
